@@ -12,7 +12,8 @@ ARITH_CALLS = {"Decimal::checked_add": "add", "Decimal::checked_sub": "sub", "De
                "f64::floor": "floor", "Decimal::floor": "floor", "f64::ceil": "ceil", "Decimal::ceil": "ceil",
                "<i32 as cmp::Ord>::min": "min", "<i32 as cmp::Ord>::max": "max", "Decimal::max": "max", "Decimal::min": "min",
                "<Decimal as cmp::PartialOrd>::le": "le", "<Decimal as cmp::PartialOrd>::gt": "gt", "<Decimal as cmp::PartialOrd>::lt": "lt", "<Decimal as cmp::PartialOrd>::ge": "ge",
-               "<Decimal as ops::Neg>::neg": "neg"}
+               "<Decimal as ops::Neg>::neg": "neg",
+               "f64::ln": "ln", "<Decimal as rust_decimal::MathematicalOps>::checked_ln": "ln"}
 
 
 def number(t):
@@ -36,6 +37,8 @@ def erase(t, inputs):
     """typed term -> untyped arithmetic term; `inputs` maps argument terms to role names"""
     if t in inputs:
         return inputs[t]
+    if isinstance(t, tuple) and len(t) == 3 and t[0] == "const" and t[1] in ("std::f64::consts::E", "core::f64::consts::E", "Decimal::E"):
+        return ("e",)        # Euler's number in the value type of the copy
     n = number(t)
     if n is not None:
         return ("num", str(n))
